@@ -31,7 +31,8 @@ REAL_STUB = {
              "time.time_ns -> virtual counter", "OS thread scheduler -> baton passing World"],
 }
 EXPECTED_PROBES = ["probe_second_writer_saw_writing", "probe_get_joined_inflight_load", "probe_evicted_during_run",
-                   "probe_update_during_inflight_load", "probe_unload_during_inflight", "probe_names_with_directory_part", "probe_df_unload"]
+                   "probe_update_during_inflight_load", "probe_unload_during_inflight", "probe_names_with_directory_part", "probe_df_unload",
+                   "probe_file_larger_than_the_cache"]
 WALL_CAP = {"quick": 300, "thorough": 3600}
 
 _fc = None
@@ -69,7 +70,7 @@ class _Time:
 ROOT = "/c"
 
 
-def _linearizable(ops, init):
+def _linearizable(ops, init, limit=None):
     """ops: list of dicts (kind, arg, inv, ret, result).  Sequential register over bytes|None.
     Returns (ok, set of possible final values)."""
     n = len(ops)
@@ -82,6 +83,8 @@ def _linearizable(ops, init):
         if k == "get":
             if state is None:
                 return (r == ("exc", "FileNotFoundError")), state
+            if limit is not None and len(state) > limit and r == ("exc", "MemoryError"):
+                return True, state       # contents larger than the cache: refusing the read is specified; answering it is fine too
             return (r == ("ok", state)), state
         if k == "update":
             if r == ("ok", True):
@@ -138,11 +141,21 @@ def scenario(ch, cfg):
                 fs.dirs.add(f"{ROOT}/{f.rsplit('/', 1)[0]}")
         else:
             init[f] = None
+    # one run in six: a file that is there before the cache and is larger than the cache will be allowed to grow (the
+    # directory outlives any one configuration): reading it may be refused with MemoryError, or answered with what the
+    # file holds - never with something it never held; updates (within the limit) replace it as usual
+    oversized = None
+    present = [f for f in files if init[f] is not None]
+    if present and ch.draw(6, "oversized") == 0:
+        oversized = present[ch.draw(len(present), "oversized.which")]
+        init[oversized] = f"init-{oversized}".encode() + b"#" * 40
+        fs.files[f"{ROOT}/{oversized}"] = bytearray(init[oversized])
+        w.stats["probe_file_larger_than_the_cache"] += 1
     nclients = 2 + ch.weighted([2, 1], "nclients")
     # unique values
     vals = itertools.count(1)
     plans = []
-    maxlen = max([len(v) for v in init.values() if v is not None] + [0])
+    maxlen = max([len(v) for f_, v in init.items() if v is not None and f_ != oversized] + [4])
     for c in range(nclients):
         nops = 1 + (ch.weighted([2, 2, 1], "nops") if cfg.get("deep") else ch.weighted([2, 1], "nops"))
         ops = []
@@ -185,7 +198,7 @@ def scenario(ch, cfg):
     stats = w.stats
 
     # optional warm-up: preload some files so that entries are cached when the clients start
-    warm = [f for f in files if init[f] is not None and ch.draw(2, "warm")]
+    warm = [f for f in files if init[f] is not None and ch.draw(2, "warm") and (f != oversized or lim_kind == 0)]
 
     def warmup():
         for f in warm:
@@ -275,7 +288,7 @@ def scenario(ch, cfg):
         for op in allops:
             r = op.get("result")
             if r and r[0] == "exc":
-                expected = op["kind"] == "get" and r[1] == "FileNotFoundError"
+                expected = op["kind"] == "get" and (r[1] == "FileNotFoundError" or (r[1] == "MemoryError" and op["file"] == oversized))
                 if op["kind"] == "get" and r[1] == "OSError" and iofault is not None and iofault["fired"] and "injected" in op.get("excmsg", ""):
                     expected = True      # the injected read error surfaced in a get: allowed, and only there
                     op["faulted"] = True
@@ -285,13 +298,14 @@ def scenario(ch, cfg):
         finals = {}
         for f in files:
             fops = [op for op in allops if op["file"] == f and not op.get("faulted")]
-            bad_exc = any(op["result"][0] == "exc" and not (op["kind"] == "get" and op["result"][1] == "FileNotFoundError")
+            bad_exc = any(op["result"][0] == "exc" and not (op["kind"] == "get" and (op["result"][1] == "FileNotFoundError" or
+                                                                                     (op["result"][1] == "MemoryError" and f == oversized)))
                           for op in fops)
             if bad_exc:
                 finals[f] = None
                 continue
             init_state = init[f]
-            ok, fin = _linearizable(fops, init_state)
+            ok, fin = _linearizable(fops, init_state, limit=limit)
             finals[f] = fin
             if not ok:
                 kinds = "+".join(sorted({op["kind"] for op in fops}))
